@@ -92,7 +92,8 @@ def split_name(q):
 # personas
 # ----------------------------------------------------------------------------------
 ARCHETYPES = ['single_w2', 'joint_interest_dividends', 'itemizer', 'parent_ctc', 'hsa', 'ira_8606',
-              'high_earner', 'nc_resident', 'retiree_1099r', 'minimal']
+              'high_earner', 'nc_resident', 'retiree_1099r', 'minimal', 's1_additional_income', 's1_adjustments',
+              's3_credits', 'qbi_dividends', 'foreign_tax', 'nc_itemizer', 'joint_hsa_spouse']
 
 FIRST = ['Pat', 'Alex', 'Sam', 'Jo', 'Robin']
 LAST = ['Doe', 'Smith', 'Nguyen', 'Garcia', 'Lee']
@@ -159,11 +160,54 @@ def make_persona(year, seed, archetype=None):
         nd = rng.pick([1, 2, 3])
         over['1040.number_dependents'] = str(nd)
         wages = rng.pick([95000, 140000])
+        nctc = 0
         for n in range(nd):
             over[f'1040.dependent_{n}_name'] = f'Kid {n}'
-            over[f'1040.dependent_{n}_ctc'] = 'yes' if rng.chance(0.8) else 'no'
+            ctc = rng.chance(0.8)
+            nctc += 1 if ctc else 0
+            over[f'1040.dependent_{n}_ctc'] = 'yes' if ctc else 'no'
             over[f'1040.dependent_{n}_odc'] = 'yes'
             over[f'1040.dependent_{n}_relationship'] = 'child'
+        over['1040_s8812.number_under_17'] = str(nctc)
+    elif arch == 's1_additional_income':
+        over['1040.schedule_1_additional_income'] = 'yes'
+        status = rng.pick(STATUSES)
+    elif arch == 's1_adjustments':
+        over['1040.schedule_1_income_adjustments'] = 'yes'
+        over['1040_s1.educator_expenses'] = str(rng.pick([0, 120, 250]))
+        status = rng.pick(STATUSES)
+    elif arch == 's3_credits':
+        over['1040.need_schedule_3_part_i'] = 'yes'
+        wages = rng.pick([88000, 120000])
+    elif arch == 'qbi_dividends':
+        over['1040.number_1099-div'] = '1'
+        over['1099-div:0.payer'] = 'REIT Fund'
+        over['1099-div:0.box_1a'] = str(rng.pick([400, 900.5]))
+        over['1099-div:0.box_1b'] = '100'
+        over['1099-div:0.box_5'] = str(rng.pick([50, 300]))
+    elif arch == 'foreign_tax':
+        over['1040.number_1099-int'] = '1'
+        over['1099-int:0.payer'] = 'Intl Bank'
+        over['1099-int:0.box_1'] = '700'
+        over['1099-int:0.box_6'] = str(rng.pick([20, 150.5, 290]))
+    elif arch == 'nc_itemizer':
+        forms = ['1040', 'nc_d-400']
+        status = rng.pick(['Single', 'MarriedFilingJointly'])
+        wages = rng.pick([150000, 185000])
+        over['1040.itemize'] = 'yes'
+        over['1040.number_1098'] = '1'
+        over['1098:0.box_1'] = str(rng.pick([14000, 22000.5]))
+        over['nc_d-400.try_itemizing'] = 'yes'
+        over['1040_sa.state_local_real_estate_taxes'] = str(rng.pick([3000, 6500]))
+        over['1040_sa.charitable_cash_check'] = str(rng.pick([0, 1200, 5000]))
+    elif arch == 'joint_hsa_spouse':
+        status = 'MarriedFilingJointly'
+        n_w2 = 2
+        over['1040.schedule_1_income_adjustments'] = 'yes'
+        over['1040_s1.hsa_contribution_you'] = 'yes'
+        over['1040_s1.hsa_contribution_spouse'] = rng.pick(['yes', 'no'])
+        for who in ('you', 'spouse'):
+            over[f'8889:{who}.hsa_contributions'] = str(rng.pick([500, 1500]))
     elif arch == 'hsa':
         over['1040.schedule_1_income_adjustments'] = 'yes'
         over['1040_s1.hsa_contribution_you'] = 'yes'
@@ -184,6 +228,8 @@ def make_persona(year, seed, archetype=None):
     elif arch == 'nc_resident':
         forms = ['1040', 'nc_d-400']
         status = rng.pick(['Single', 'MarriedFilingJointly'])
+        over['1040.number_1098'] = '1'
+        over['1098:0.box_1'] = str(rng.pick([4000, 9000.5]))
     elif arch == 'retiree_1099r':
         over['1040.number_1099-r'] = '1'
         over['1099-r:0.box_1'] = '24000'
@@ -192,6 +238,10 @@ def make_persona(year, seed, archetype=None):
         over['1099-r:0.box_4'] = '2400'
         wages = rng.pick([60000, 70000])
 
+    if year == 2021 and 50000 <= wages < 100000:
+        # the 2021 tax table has no rows for taxable income 48,000-66,000 (an abort that is C07's business, not ours):
+        # keep most 2021 personas out of that hole so that they reach solved returns
+        wages = rng.pick([40000, 101000.5, 120000])
     over['1040.filing_status'] = status
     over['1040.number_w-2'] = str(n_w2)
     for n in range(n_w2):
@@ -213,7 +263,7 @@ def default_text(q, spec, persona):
         # inputs whose *negative* answer is the unsupported one
         if base in ('hsa_full_year', 'age_under_55', 'full_year_resident', 'lived_in_nc_entire_year',
                     'ira_exception1_you_total', 'ira_exception1_spouse_total', 'ira_exception3_you_total',
-                    'ira_exception3_spouse_total', 'checking_account', 'same_address', 'had_health_coverage'):
+                    'ira_exception3_spouse_total', 'checking_account', 'nc_residents', 'no_consumer_use_tax', 'filling_8283'):
             return 'yes'
         return 'no'
     if t == 'int':
